@@ -207,6 +207,9 @@ func main() {
 		{"Rs", "W", "T", "Rz", "W", "T", "Rs", "W", "T"},       // re-armed with a deadline already passed: fires, next Reset must not block
 		{"Rz", "W", "Rn", "W", "T", "Rl", "W", "T"},            // zero then negative, first not received
 		{"Rl", "Rn", "W", "T", "Rz", "W", "W", "T", "Rz", "W"}, // long timer replaced by an expired one
+		{"Rs", "W", "T", "Rs", "W", "Rl", "W", "T"},            // read, then fired and NOT read, then re-armed for long: the stale tick must be drained
+		{"Rz", "W", "T", "Rn", "W", "Rl", "W", "T", "S"},
+		{"Rs", "W", "T", "Rs", "W", "Rs", "W", "T", "W", "T"}, // same with a short re-arm: exactly one tick
 	}
 	for _, c := range corpus {
 		timers = append(timers, timerCase{c, runTimer(c)})
